@@ -18,6 +18,11 @@ for pid in sys.argv[1:]:
     p = props[pid]
     text = '%s: %s\n\n%s' % (pid, p['title'], p['statement'])
     files = ', '.join(f for f in p['anchors']['files'] if f.endswith('.rs'))
-    out = tmpl.replace('@WT@', wt).replace('@OUT@', wt + '-out').replace('@PROPERTY@', text).replace('@PID@', pid).replace('@FILES@', files)
+    import glob
+    used = []
+    for m in glob.glob(os.path.join(V, 'seeded', 'harmless', pid + '-h*', 'meta.json')):
+        used.append((json.load(open(m)).get('function') or '')[:90])
+    avoid = ('\nAVOID these functions, other sub-agents already refactored them: ' + '; '.join(used) + '.\n') if used else ''
+    out = tmpl.replace('@WT@', wt).replace('@OUT@', wt + '-out').replace('@PROPERTY@', text).replace('@PID@', pid).replace('@FILES@', files + avoid)
     open('/tmp/seed/%s.prompt' % sid, 'w').write(out)
     print(sid, '/tmp/seed/%s.prompt' % sid)
